@@ -312,6 +312,72 @@ def rule_coalesce(P):
     return R
 
 
+def rule_serve(P):
+    """requestChunk of the two grid managers: a hole taken from the lists / grid leaves the tracked set before it is returned, and when it is larger
+    than the request the surplus is cut off (clearHole at the request size) and handed to recycleChunk — never left attached to the served chunk's tags"""
+    R = RuleResult("storage.serve-protocol", "requestChunk of the grid managers: every returned hole that did not come from allocateFromArray was untracked first; on the `leftover > 0` edge clearHole(h, request) and recycleChunk(h + request, leftover) both precede the return")
+    n = 0
+    seen = set()
+    for f in sorted(P.fns.values(), key=lambda f: (f["file"], f["line"], f["inst"])):
+        if not f.get("cfg") or not f["file"].startswith("memory_managers/") or not f["q"].endswith("::requestChunk") or (f["file"], f["line"]) in seen:
+            continue
+        cls = re.sub(r"<.*", "", (f.get("cls") or "").replace(M, ""))
+        if cls not in ("array_plus_grid", "original_grid"):
+            continue
+        seen.add((f["file"], f["line"]))
+        untrack, _ = COALESCE_VOCAB[cls]
+        g = Graph(f)
+        n += 1
+        R.functions.add(f["inst"])
+        req = f["params"][0]["name"]
+        callnm = lambda k: k.kind == "call" and k.ev["q"].startswith(M) and k.ev["q"].split("::")[-1]
+        rets = [k for k in g.nodes if k.kind == "ret" and re.fullmatch(r"\w+", _nzs(k.ev.get("text", ""))) and not _nzs(k.ev["text"]).isdigit()]
+        if not rets:
+            raise AnalysisBroken("storage.serve-protocol: %s::requestChunk returns no variable" % cls)
+        hv = _nzs(rets[0].ev["text"])
+        fresh = lambda k: k.kind == "ldef" and k.ev["var"] == hv and "allocateFromArray" in (k.ev.get("rhs") or "")
+        un = lambda k: callnm(k) in untrack and [_nzs(a) for a in k.ev["args"]] == [hv]
+        for r in rets:
+            R.paths += 1
+            iid = "%s::requestChunk: `return %s` at line %s hands out a hole that left the tracked set (or fresh array space)" % (cls, hv, r.line)
+            p_ = g.path(g.entry, lambda k, r=r: k.id == r.id, avoid=lambda k: un(k) or fresh(k))
+            if p_ is None:
+                R.ok(iid, where(f, r.line))
+            else:
+                R.fail(iid, where(f, r.line), Finding(R.rule, f["file"], base_name(f["q"]), "serve-tracked",
+                       "a hole is returned to the caller while it is still in the tracked set (%s(%s) not called): the same memory will be served again" % ("/".join(sorted(untrack)), hv), r.line, show_path(p_)))
+        lo = [b for b in g.nodes if b.kind == "branch" and b.cond and len(b.succ) == 2 and re.fullmatch(r"(\w+)>0", _nzs(b.cond["text"])) and
+              any(k.kind == "ldef" and k.ev["var"] == re.fullmatch(r"(\w+)>0", _nzs(b.cond["text"])).group(1) and "getHoleSize" in (k.ev.get("rhs") or "") for k in g.nodes)]
+        if len(lo) != 1:
+            raise AnalysisBroken("storage.serve-protocol: %s::requestChunk: the `leftover > 0` test was not found" % cls)
+        b = lo[0]
+        lv = re.fullmatch(r"(\w+)>0", _nzs(b.cond["text"])).group(1)
+        te = 1 if b.cond.get("neg") else 0
+        start = [s_ for s_, i in b.succ if i == te][0]
+        cut = lambda k: callnm(k) == "clearHole" and [_nzs(a) for a in k.ev["args"]] == [hv, req]
+        back = lambda k: callnm(k) == "recycleChunk" and [_nzs(a) for a in k.ev["args"]] == ["%s+%s" % (hv, req), lv]
+        is_ret = lambda k: k.kind == "ret" or k.id == g.exit
+        for what, pred, sink in (("clearHole(%s, %s)" % (hv, req), cut, "cut"), ("recycleChunk(%s + %s, %s)" % (hv, req, lv), back, "give-back")):
+            R.paths += 1
+            iid = "%s::requestChunk: a surplus is split off by %s" % (cls, what)
+            first = g.nodes[start]
+            p_ = None if pred(first) else g.path(start, is_ret, avoid=pred)
+            if p_ is None:
+                R.ok(iid, where(f, b.line))
+            else:
+                R.fail(iid, where(f, b.line), Finding(R.rule, f["file"], base_name(f["q"]), sink,
+                       "with a surplus of `%s` slots the chunk is returned without %s: the surplus is lost or stays inside the served chunk's hole tags" % (lv, what), b.line, show_path(p_)))
+        R.paths += 1
+        iid = "%s::requestChunk: the cut precedes the give-back" % cls
+        p_ = g.path(start, back, avoid=cut)
+        (R.ok(iid, where(f, b.line)) if p_ is None or cut(g.nodes[start]) else R.fail(iid, where(f, b.line), Finding(R.rule, f["file"], base_name(f["q"]), "cut-first",
+            "recycleChunk of the surplus runs before clearHole: the surplus is merged straight back into the chunk being served", b.line, show_path(p_))))
+    if n < 2:
+        raise AnalysisBroken("storage.serve-protocol: expected the two grid managers, found %d" % n)
+    R.require_floor(10, "serve obligations")
+    return R
+
+
 def _nzs(t):
     return re.sub(r"\s+", "", t or "")
 
@@ -387,4 +453,4 @@ def rule_chunkptr(P):
     return R
 
 
-RULES = [rule_threshold_first, rule_coalesce, rule_layout, rule_chunkptr]
+RULES = [rule_threshold_first, rule_coalesce, rule_serve, rule_layout, rule_chunkptr]
